@@ -5,9 +5,7 @@
   list of deliveries and returns what the application and the peer saw.
 * ``ref_chunked`` is a boring, strict RFC 9112 section 7.1 decoder used as the oracle
   for chunked bodies.  It is written from the grammar, not from Twisted.
-* ``ref_http`` is a boring RFC 9112 request-stream parser (used by C19) that
-  returns the strict reading of a byte stream plus every place where the RFC
-  leaves the recipient a choice.
+* the request-stream reference parser (``ref_http``) lives in C19.py, its only user.
 """
 from __future__ import annotations
 
